@@ -21,7 +21,7 @@ RULE = ("CFmt: sources built from lexeme lists (imports, includes, 1-4 rules wit
         "heavily commented with //, /* */ and multi-line comments in every gap, one-line, CRLF+tabs), non-ASCII in comments and literals; "
         "20% token-level mutations (delete/dup/swap/garbage/truncate), 10% byte-level mutations incl. invalid UTF-8; each under 2 rows of a "
         "pairwise covering array over the 7 boolean options x 6 indentations x 4 input tab sizes (+ random rows); checked per case: no "
-        "panic/hang, significant tokens of output = input, modified flag = (output != input), second pass changes nothing. "
+        "panic/hang, significant tokens of output = input, modified flag = (output != input), second pass changes nothing, input and output compile alike (same error codes, or same verdicts and matches on 3 buffers). "
         "CProc/CBubble/CCats: the real Processor/Bubble/Token::category (hook) vs the Coq model on real token streams of small sources with "
         "1-4 generated rules (conditions over token(+-1..3).is/eq/in_rule with and/or/not; drop/copy/insert incl. Begin/End) and 8 "
         "pass-through categories. Distinct = distinct source texts.")
